@@ -313,6 +313,17 @@ return pcall(a)`,
 		Name: "load_go_reader_in_pcall_retry", Class: "corpus/goloop_reader", Cap: 200, AllK: true, NoRef: true,
 		Src: `while true do pcall(load, os.clock) end`,
 	}}
+	// fixed: a coroutine body driven by the host's L.Resume that ends with a tail-called catcher ended
+	// the coroutine normally (ResumeOK, nil error) after a swallowed cancellation (hunt2 obs-2)
+	js = append(js, job{Name: "resume_body_tail_pcall", Class: "corpus/tail_catcher", Cap: 200, AllK: true, Mode: "resume",
+		Src: `return pcall(function() local i = 0 while true do i = i + 1 emit(i) end end)`})
+	js = append(js, job{Name: "coroutine_body_is_go_catcher", Class: "corpus/tail_catcher", Cap: 200, AllK: true,
+		Src: `
+local function loop() local i = 0 while true do i = i + 1 emit(i) end end
+local co = coroutine.wrap(pcall)
+local function last() return co(loop) end
+emit(pcall(last))
+return coroutine.wrap(function() return xpcall(loop, function(e) return e end) end)()`})
 	// the host runs the catching builtin itself: CallByParam(P{Fn: pcall}, chunk)
 	for _, name := range []string{"tight_loop", "pcall_retry", "coroutine_wrap_generator"} {
 		js = append(js, job{Name: name + "/hostpcall", Class: "corpus/host_calls_pcall", Src: srcOf(name), Cap: 120, AllK: true, Mode: "hostpcall"})
